@@ -67,7 +67,11 @@ type SimContext struct {
 	// instruction, when that instruction has done this many work units (a
 	// deadline that expires while a long built-in is running).
 	HeavyFireAt int64
-	FiredInWork bool
+	// CancelAtWork > 0: the cancellation fires at this work unit of the run
+	// (an instant between two instructions' ticks: inside the entry or exit
+	// sequence of a call, in the middle of a built-in ...).
+	CancelAtWork int64
+	FiredInWork  bool
 	WorkAfter   int64 // work units after the cancellation
 	// (… of which inside the instruction that is running now)
 	workAfterInInstr int64
@@ -271,7 +275,7 @@ func Work() {
 		}
 		return
 	}
-	if c.HeavyFireAt > 0 && c.workInInstr == c.HeavyFireAt {
+	if (c.HeavyFireAt > 0 && c.workInInstr == c.HeavyFireAt) || (c.CancelAtWork > 0 && c.Work == c.CancelAtWork) {
 		c.FiredInWork = true
 		c.fire()
 	}
